@@ -77,6 +77,17 @@ func reachesCallee(fn *ssa.Function, depth int, names ...string) bool {
 	return hit
 }
 
+// returnsFunc: the function's result is a function value (a constructor of fetch functions: followed, not summarised).
+func returnsFunc(fn *ssa.Function) bool {
+	rs := fn.Signature.Results()
+	for i := 0; i < rs.Len(); i++ {
+		if _, ok := rs.At(i).Type().Underlying().(*types.Signature); ok {
+			return true
+		}
+	}
+	return false
+}
+
 func resolveAnchors(w *World) {
 	nameAlias = map[string]string{}
 	defer func() {
